@@ -3,16 +3,18 @@ package world
 import (
 	"context"
 	"fmt"
+	"github.com/evstack/ev-node/types"
 	"os"
 	"time"
 )
 
 // Action is one step of a delivery schedule to a full node.
 type Action struct {
-	Kind string `json:"k"` // ch-h | ch-d | da | p2p-h | p2p-d | restart | crash-restart
-	I    int    `json:"i,omitempty"`    // block index (ch-*), or "up to index" (p2p-*)
-	DA   []Item `json:"da,omitempty"`   // blobs placed at the next DA height
-	Junk [][]byte `json:"-"`            // third-party blobs placed with them
+	Kind      string   `json:"k"`            // ch-h | ch-d | da | p2p-h | p2p-d | restart | crash-restart
+	I         int      `json:"i,omitempty"`  // block index (ch-*), or "up to index" (p2p-*)
+	DA        []Item   `json:"da,omitempty"` // blobs placed at the next DA height
+	Junk      [][]byte `json:"-"`            // third-party blobs placed with them
+	JunkFirst bool     `json:"-"`            // third-party blobs come before the genuine ones within the DA height
 }
 
 // Item names one genuine blob: header or data of block index I.
@@ -128,7 +130,11 @@ func (f *FN) Do(a Action) error {
 				blobs = append(blobs, f.P.HeaderBlob[it.I])
 			}
 		}
-		blobs = append(blobs, a.Junk...)
+		if a.JunkFirst {
+			blobs = append(append([][]byte{}, a.Junk...), blobs...)
+		} else {
+			blobs = append(blobs, a.Junk...)
+		}
 		h := f.daNext
 		f.daNext++
 		f.DA.Place(h, blobs...)
@@ -197,3 +203,17 @@ func (f *FN) HStar() uint64 {
 	}
 	return h
 }
+
+// AddForeignP2PHeader appends a header that is NOT the proposer's to the P2P header store double at the
+// next position (a peer served it), lets the real store loop pick it up and waits for quiescence.
+func (f *FN) AddForeignP2PHeader(h *types.SignedHeader) error {
+	f.N.HStore.Add(h)
+	f.p2pH++
+	if err := f.L.SignalBarrier("headerStore", "headerStore"); err != nil {
+		return err
+	}
+	return f.L.SyncBarrier()
+}
+
+// P2PHeaderNext returns the index of the next header the P2P header store double expects.
+func (f *FN) P2PHeaderNext() int { return f.p2pH }
